@@ -358,4 +358,24 @@ PROPS = {
         'assumptions': ['identifier tokens inside pragma and annotation lines are not renamed (they are one token)'],
         'partial': ['whole-analyser invariance: implementation oracle only'],
     },
+    'C18': {
+        'coq': 'Props/C18.v',
+        'families': [
+            {'name': 'inc', 'args': {'quick': ['--random', 1600], 'thorough': ['--random', 60000]},
+             'shards': {'quick': 16, 'thorough': 16}, 'driver_args': []},
+            {'name': 'nopanic', 'args': {'quick': ['--templates', 1, '--mutants', 20000], 'thorough': ['--templates', 1, '--mutants', 500000]},
+             'shards': {'quick': 16, 'thorough': 16}, 'driver_args': ['--nodedupe'], 'max_skip': 0.97},
+        ],
+        'exhaustive': {'quick': False, 'thorough': False},
+        'rule': 'file systems of 1-3 directories and 1-4 include files, each present in none, one or several directories with distinct '
+                'content, nested up to depth 3 (a file includes only higher-numbered files, each file has at most one includer), included '
+                'by relative or absolute path; analysed with a search list (random order and subset of the directories), with QASM3_PATH, '
+                'with both (the environment must be ignored) or with neither; observed: which files were included in which order '
+                '(markers in the symbol table), which includes were unreadable (by the path written), the path tag of diagnostics raised '
+                'inside included files, equality of graph / symbols / diagnostic kinds with the program in which the chosen files are '
+                'written at the include sites; includes below global scope and a missing file; non-trivial = a main program with includes',
+        'trusted_base': ['Model/Include.v (hand-written)', 'the real file system under /verif/build/tmp; std::env::set_var in the single-threaded harness'],
+        'assumptions': ['no include cycles (the implementation has no cycle protection; a cycle overflows the stack)'],
+        'partial': ['file-system primitives and the analysis of included text: implementation oracle and correspondence only'],
+    },
 }
